@@ -114,6 +114,12 @@ func runTreeCase(c treeCase, section string, sec *vh.Section, verbose bool) {
 				res.Mismatch(vh.Mismatch{Section: section, Function: "ckindex traversal after addInterval", Input: in, Impl: short(ps), Model: short(ans)})
 			}
 		})
+		ask("itree.points", func(ans string) {
+			flat := strings.TrimPrefix(strings.TrimPrefix(ps, "c "), "NC ")
+			if ans != flat {
+				res.Mismatch(vh.Mismatch{Section: section, Function: "ITree (inductive tree model of the tree theorems) vs the real tree's level-0 records", Input: in, Impl: short(flat), Model: short(ans)})
+			}
+		})
 		ask("pts.points", func(ans string) {
 			flat := strings.TrimPrefix(strings.TrimPrefix(ps, "c "), "NC ")
 			if ans == flat {
@@ -191,6 +197,9 @@ func runTreeCase(c treeCase, section string, sec *vh.Section, verbose bool) {
 				eq := f["greq"] == gs && f["less"] == ls
 				if !eq {
 					res.Mismatch(vh.Mismatch{Section: section, Function: fmt.Sprintf("ckindex.grEq/less(%d)", q), Input: in, Impl: "greq=" + gs + " less=" + ls, Model: ans})
+				}
+				if f["igreq"] != gs || f["iless"] != ls || f["ilevel"] != fmt.Sprint(level) {
+					res.Mismatch(vh.Mismatch{Section: section, Function: fmt.Sprintf("ITree.grEq/less/rootLevel(%d) vs the real tree", q), Input: in, Impl: fmt.Sprintf("greq=%s less=%s level=%d", gs, ls, level), Model: ans})
 				}
 				if (single || ao) && (f["pgreq"] != gs || f["pless"] != ls) {
 					res.Mismatch(vh.Mismatch{Section: section, Function: fmt.Sprintf("Points.grEqPos/lessPos(%d) vs the tree (single block or append-only)", q), Input: in, Impl: "greq=" + gs + " less=" + ls, Model: ans})
